@@ -300,8 +300,12 @@ func (keys_and_cert *KeysAndCert) SigningPublicKey() (types.SigningPublicKey, er
 	return keys_and_cert.SigningPublic, nil
 }
 
-// Certificate returns the certificate.
+// Certificate returns the certificate, or nil if the KeysAndCert or its
+// key certificate has not been initialized.
 func (keys_and_cert *KeysAndCert) Certificate() *certificate.Certificate {
+	if keys_and_cert == nil || keys_and_cert.KeyCertificate == nil {
+		return nil
+	}
 	return &keys_and_cert.KeyCertificate.Certificate
 }
 
